@@ -62,44 +62,82 @@ def boxcar_instances(tier):
 
 
 def proto_instances(tier):
+    """Schedule / history skeletons are enumerated here (one CBMC run each); see proto_h.rs for why
+    the choices cannot be solver variables."""
+    import os, itertools
     out = []
     q = tier == "quick"
     def add(name, unwind, expr, props, bounds, rules=None):
         i = Inst(name, unwind, expr, props, bounds, "nucleo_proto")
         i.small = True
         i.unwind_rules = rules or PROTO_RULES
+        i.cbmc_extra = PROTO_CBMC
         out.append(i)
-    # C20: operation-kind skeletons (0 injector, 1 clone, 2 drop, 3 restart, 4 tick(0), 5 pending run completes)
-    if q:
-        seqs = [[0, 1, 3, 0, 2], [0, 4, 3, 4, 0], [0, 3, 1, 4, 5], [3, 0, 4, 2, 0]]
-    else:
-        import itertools
-        seqs = [list(s) for s in itertools.product(range(6), repeat=4) if 3 in s and 0 in s] + \
-               [[0, 1, 3, 0, 2, 4], [0, 4, 3, 4, 0, 5], [0, 3, 1, 4, 5, 2], [3, 0, 4, 2, 0, 3], [0, 3, 3, 0, 4, 1], [0, 4, 5, 3, 0, 4]]
-    names = "icdrtp"
-    for sq in seqs:
-        code = sum(o * 6 ** i for i, o in enumerate(sq))
-        add("injector_count_%s" % "".join(names[o] for o in sq), 8, "injector_count::<%d>(%d)" % (len(sq), code), ["C20"],
-            {"operation_kinds": [["injector()", "clone", "drop", "restart(b)", "tick(0)", "pending run completes"][o] for o in sq],
-             "parameters": "symbolic: handle slot, restart flag, timed-lock outcome", "handle_slots": 3})
+    if os.environ.get("VERIF_PROBES"):
+        for nm in ("probe_d9_h", "probe_d10_h", "probe_d8_h", "probe_d7_h", "probe_d5_h", "probe_d6_h", "probe_d3_h", "probe_d4_h", "probe_d1_h", "probe_d2_h", "probe_heapvec_h", "probe_h_h", "probe_i_h", "probe_e_h", "probe_f_h", "probe_g_h", "probe_a_h", "probe_b_h", "probe_c_h", "probe_d_h", "probe_clone_from_h", "probe_new_h", "probe_tick_h", "probe_tick_run_h"):
+            i = Inst(nm, 8, None, ["C06"], {}, None); i.small = True; i.unwind_rules = PROTO_RULES; i.cbmc_extra = PROTO_CBMC; out.append(i)
     TM = ["acquired in time", "timed out, run still pending", "timed out and the run finishes before the tick re-arms"]
+    # C20: (operation, slot) skeletons: 0 injector, 1 clone, 2 drop, 3 restart(slot odd => clear), 4 tick(0), 5 pending run completes
+    names = "icdrtp"
+    if q:
+        seqs = [[(0, 0), (1, 0), (3, 1), (0, 2), (2, 0)], [(0, 0), (4, 0), (3, 0), (4, 0), (0, 1)], [(0, 1), (3, 1), (1, 1), (4, 0), (5, 0)],
+                [(3, 1), (0, 0), (3, 0), (0, 1), (1, 1)], [(0, 0), (3, 1), (0, 1), (4, 0), (2, 1)]]
+    else:
+        kinds = [s for s in itertools.product(range(6), repeat=4) if 3 in s and 0 in s]
+        seqs = []
+        for n_, ks in enumerate(kinds):
+            seqs.append([(o, (n_ + i_ * 2) % 3) for i_, o in enumerate(ks)])
+        seqs += [[(0, 0), (1, 0), (3, 1), (0, 2), (2, 0), (4, 0)], [(3, 1), (0, 0), (3, 0), (0, 1), (1, 1), (4, 0)], [(0, 0), (4, 0), (5, 0), (3, 1), (0, 1), (4, 0)]]
+    for sq in seqs:
+        code = 0
+        for o, k in reversed(sq):
+            code = (code * 3 + k) * 6 + o
+        for tmd in [0]:
+            add("injector_count_%s_t%d" % ("".join("%s%d" % (names[o], k) for o, k in sq), tmd), 8,
+                "injector_count::<%d>(%d, %d)" % (len(sq), code, tmd * 13), ["C20"],
+                {"history": [["injector()", "clone", "drop", "restart", "tick(0)", "pending run completes"][o] + "[slot %d]" % k for o, k in sq],
+                 "timed_lock_outcomes": TM[tmd] + " (every attempt)", "handle_slots": 3})
+    # C13 / C19 / C06: ticks around one background run
     for it in ([1] if q else [0, 1, 2]):
-        for tm in (0, 1, 2):
-            add("wakeup_i%d_t%d" % (it, tm), 8, "wakeup::<%d>(%d)" % (it, tm), ["C13", "C06", "C19", "C07"],
-                {"items": it, "ticks": 3, "timed_lock_outcome": TM[tm], "second_push": "symbolic", "worker_threads": 1})
+        for sp in (False, True):
+            for tmd in (0, 1, 2):
+                # schedules with a timed-out attempt: CBMC reports invalid pointers in later ticks that do not
+                # exist natively (see DESIGN.md, K-nucleo limits); only the C13 assertions - confirmed by
+                # native replay when they fail - are taken from those instances
+                add("wakeup_i%d_%s_t%d" % (it, "push2" if sp else "nopush", tmd), 8, "wakeup::<%d>(%d, %s)" % (it, tmd, str(sp).lower()), ["C13", "C06", "C19", "C07"] if tmd == 0 else ["C13"],
+                    {"items": it, "ticks": 3, "first_timed_lock_outcome": TM[tmd], "second_push": sp, "worker_threads": 1})
+    # C06 with a writer in flight
     for pre, batch in ([(1, 2)] if q else [(0, 2), (1, 2), (2, 2), (1, 3)]):
-        add("inflight_p%d_b%d" % (pre, batch), 8, "inflight_writer::<%d, %d>()" % (pre, batch), ["C06", "C19", "C07"],
-            {"items_before": pre, "batch_in_flight": batch, "ui_activity_between_publications": "tick, optionally run completes + tick (symbolic)",
-             "timed_lock_outcomes": "symbolic", "pattern": "empty"})
+        for runs in ([0, 1, 2, 3] if batch == 2 else [0, 2, 5, 7]):
+            for tmd in [0]:
+                add("inflight_p%d_b%d_r%d_t%d" % (pre, batch, runs, tmd), 8, "inflight_writer::<%d, %d>(%d, %d)" % (pre, batch, tmd, runs), ["C06", "C19", "C07"],
+                    {"items_before": pre, "batch_in_flight": batch, "run_completes_before_publication_of_item(bitmask)": runs,
+                     "timed_lock_outcomes(base3)": tmd, "pattern": "empty"})
+    # C12: restart
     for o, nw in ([(1, 1)] if q else [(0, 1), (1, 0), (1, 1), (2, 1), (1, 2)]):
-        add("restart_o%d_n%d" % (o, nw), 8, "restart_isolation::<%d, %d>()" % (o, nw), ["C12", "C06", "C19", "C07"],
-            {"items_before_restart": o, "items_after_restart": nw, "clear_snapshot": "symbolic", "old_run": "symbolic: completed before the restart or still pending",
-             "timed_lock_outcomes": "symbolic", "ticks_after_restart": 2})
+        for rb in (False, True):
+            for cl in (False, True):
+                for tmd in [0]:
+                    add("restart_o%d_n%d_%s_%s_t%d" % (o, nw, "ran" if rb else "pend", "clear" if cl else "keep", tmd), 8,
+                        "restart_isolation::<%d, %d>(%d, %s, %s)" % (o, nw, tmd, str(rb).lower(), str(cl).lower()), ["C12", "C06", "C19", "C07"],
+                        {"items_before_restart": o, "items_after_restart": nw, "clear_snapshot": cl, "old_run_completed_before_restart": rb,
+                         "timed_lock_outcomes(base3)": tmd, "ticks_after_restart": 2})
     return out
 
 
 # loops that really iterate more than the global bound (resolved per binary with cbmc --show-loops)
+# CBMC loses the concrete (zero / one) length of the pattern's atom vector once the Worker has been
+# moved behind Arc<Mutex<..>>, and would unroll every clone / drop loop over atoms to the global
+# bound, each iteration cloning a heap string of symbolic length. These loops get a tight
+# per-loop bound instead; the unwinding ASSERTIONS stay on, so a path that really needs more
+# iterations makes the run inconclusive instead of being cut off silently.
 PROTO_RULES = [(r"array.*map|drain_array_with|try_from_fn|from_fn", 33), (r"boxcar.*Vec.*drop|boxcar::Vec.*as.*Drop", 33)]
+# Heap objects are byte arrays to CBMC; above 64 bytes (the default of this option) it stops
+# tracking their elements individually, so every Vec length read from the Worker - which lives in
+# an Arc<Mutex<..>> - became a non-constant byte-extract and every clone / drop loop was unrolled
+# to the bound with heap strings of symbolic length (tick: > 15 min). With 512 the same tick
+# takes seconds. Soundness is not affected (it only changes how symex represents arrays).
+PROTO_CBMC = ["--max-field-sensitivity-array-size", "512"]
 
 FAMILIES = {"nucleo_sort": sort_instances, "nucleo_boxcar": boxcar_instances, "nucleo_proto": proto_instances}
 
@@ -122,5 +160,6 @@ def write_gen(sc, tier, extra=(), small=None):
             if not any(j.name == i.name for j in fams[i.family]):
                 fams[i.family].append(i)
     for fam in FAMILIES:
-        sc.write_gen(fam + ".rs", gen_text(fams.get(fam, [])))
+        # the protocol family runs the real worker, whose vectors legitimately grow: no Vec::push stub
+        sc.write_gen(fam + ".rs", gen_text(fams.get(fam, []), "harnesses_nostub" if fam == "nucleo_proto" else "harnesses"))
     return None
